@@ -524,3 +524,117 @@ Example folding_example :
                 hl_cont := [([SP; HT], str "socket"%string)] |} in
   same_header one two.
 Proof. vm_compute. split; reflexivity. Qed.
+
+(* ---------- repeated headers ---------- *)
+(* what the table holds for key k after a header has been added *)
+Definition found (k : bytes) (hs : list (bytes * list bytes)) : option (list bytes) :=
+  match find (fun p => bytes_eqb (fst p) k) hs with Some (_, v) => Some v | None => None end.
+
+Lemma bytes_eqb_sym a b : bytes_eqb a b = bytes_eqb b a.
+Proof.
+  destruct (bytes_eqb a b) eqn:E1, (bytes_eqb b a) eqn:E2; try reflexivity.
+  - apply bytes_eqb_eq in E1. subst. rewrite (proj2 (bytes_eqb_eq b b) eq_refl) in E2. discriminate.
+  - apply bytes_eqb_eq in E2. subst. rewrite (proj2 (bytes_eqb_eq a a) eq_refl) in E1. discriminate.
+Qed.
+
+Lemma found_hdr_add hs k k' fr m :
+  found k (hdr_add hs k' fr m) =
+  if bytes_eqb k' k then Some (match found k hs with Some v => v ++ (if m then [[x2c]] else []) ++ fr | None => fr end)
+  else found k hs.
+Proof.
+  unfold found. induction hs as [|[n v] hs IH]; cbn [hdr_add find fst].
+  - destruct (bytes_eqb k' k); reflexivity.
+  - destruct (bytes_eqb n k') eqn:E1.
+    + apply bytes_eqb_eq in E1. subst n. cbn [find fst]. destruct (bytes_eqb k' k); reflexivity.
+    + cbn [find fst]. destruct (bytes_eqb n k) eqn:E2.
+      * apply bytes_eqb_eq in E2. subst n. rewrite (bytes_eqb_sym k' k), E1. reflexivity.
+      * exact IH.
+Qed.
+
+Lemma found_add_conts cs : forall hs k k',
+  found k (add_conts k' hs cs) =
+  if bytes_eqb k' k then (match cs with [] => found k hs | _ => Some (match found k hs with Some v => v | None => [] end ++ flat_map cont_frags cs) end)
+  else found k hs.
+Proof.
+  induction cs as [|c cs IH]; intros hs k k'; [cbn; destruct (bytes_eqb k' k); reflexivity|].
+  unfold add_conts. cbn [fold_left]. fold (add_conts k' (hdr_add hs k' (cont_frags c) false) cs).
+  rewrite IH, found_hdr_add. destruct (bytes_eqb k' k) eqn:E; [|reflexivity].
+  cbn [app flat_map]. destruct cs as [|c2 cs].
+  - cbn [flat_map]. rewrite app_nil_r. destruct (found k hs); reflexivity.
+  - destruct (found k hs); cbn [app]; rewrite <- ?app_assoc; reflexivity.
+Qed.
+
+(* the fragments collected for key k by a list of headers: later headers of the same name are appended behind a comma *)
+Fixpoint collect (k : bytes) (ls : list hline) (acc : option (list bytes)) : option (list bytes) :=
+  match ls with
+  | [] => acc
+  | h :: rest =>
+      if bytes_eqb (key_of h) k
+      then collect k rest (Some (match acc with Some v => v ++ [[x2c]] ++ frags h | None => frags h end))
+      else collect k rest acc
+  end.
+
+Lemma found_add_line hs h k :
+  found k (add_line hs h) =
+  if bytes_eqb (key_of h) k then Some (match found k hs with Some v => v ++ [[x2c]] ++ frags h | None => frags h end)
+  else found k hs.
+Proof.
+  unfold add_line. rewrite found_add_conts, found_hdr_add. destruct (bytes_eqb (key_of h) k); [|reflexivity].
+  unfold frags. destruct (hl_cont h) as [|c cs].
+  - cbn [flat_map]. rewrite !app_nil_r. destruct (found k hs); reflexivity.
+  - destruct (found k hs); cbn [app]; rewrite <- ?app_assoc; reflexivity.
+Qed.
+
+Lemma found_fold ls : forall hs k, found k (fold_left add_line ls hs) = collect k ls (found k hs).
+Proof.
+  induction ls as [|h ls IH]; intros hs k; [reflexivity|].
+  cbn [fold_left collect]. rewrite IH, found_add_line. destruct (bytes_eqb (key_of h) k); reflexivity.
+Qed.
+
+(* replies whose headers may repeat *)
+Record wf_reply_dup (r : reply) : Prop := {
+  wd_version : rp_version r <> [] /\ Forall (fun b => is_bspace b = false) (rp_version r);
+  wd_code : rp_code r <= 65535;
+  wd_reason : no_crlf (rp_reason r);
+  wd_lines : Forall wf_line (rp_lines r)
+}.
+
+Theorem parse_rendered_reply_dup r : wf_reply_dup r ->
+  r_status (parse_response (render_reply r)) = Some (rp_code r) /\
+  forall q, resp_get (parse_response (render_reply r)) q =
+            match collect (lower_s q) (rp_lines r) None with Some fr => Some (strip (concat fr)) | None => None end.
+Proof.
+  intros [[Hv Fv] Hc Hr Hl].
+  assert (HL : split_on CRLF (render_reply r) = status_line r :: flat_map render_lines (rp_lines r) ++ [[]; []]).
+  { unfold render_reply. apply split_on_join; [discriminate|].
+    constructor.
+    - unfold status_line, no_crlf. apply Forall_app; split; [eapply Forall_impl; [|exact Fv]; exact bspace_crlf|].
+      constructor; [split; discriminate|].
+      apply Forall_app; split.
+      + destruct (decimal_digits _ Hc) as [Fd _]. eapply Forall_impl; [|exact Fd].
+        intros b Hb. apply bspace_crlf. apply digit_not_bspace. exact Hb.
+      + constructor; [split; discriminate|exact Hr].
+    - apply Forall_app; split.
+      + apply Forall_forall. intros l Hin. apply in_flat_map in Hin as (h & Hh & Hin).
+        rewrite Forall_forall in Hl. specialize (Hl h Hh). destruct Hin as [<-|Hin]; [apply line_no_crlf; exact Hl|].
+        apply in_map_iff in Hin as (c & <- & Hc'). apply cont_no_crlf.
+        destruct Hl as [_ _ _ _ Wc]. rewrite Forall_forall in Wc. apply Wc. exact Hc'.
+      + repeat constructor. }
+  unfold parse_response. rewrite HL. cbn [hd tl nth r_status r_headers]. split.
+  - destruct (decimal_digits _ Hc) as [Fd Hd].
+    unfold status_line. rewrite status_tokens by assumption.
+    rewrite parse_int_is_parse_dec. apply parse_decimal. exact Hc.
+  - intros q. unfold resp_get. cbn [r_headers]. rewrite parse_lines by exact Hl.
+    pose proof (found_fold (rp_lines r) [] (lower_s q)) as F. unfold found in F at 1. cbn [found find] in F.
+    destruct (find _ (fold_left add_line (rp_lines r) [])) as [[k v]|]; rewrite <- F; reflexivity.
+Qed.
+
+(* a header sent twice is read as the two values joined by a comma *)
+Example repeated_header_example :
+  let a := {| hl_name := str "Sec-WebSocket-Extensions"%string; hl_lead := [SP]; hl_value := str "foo"%string; hl_trail := []; hl_cont := [] |} in
+  let b := {| hl_name := str "sec-websocket-extensions"%string; hl_lead := []; hl_value := str "permessage-deflate"%string; hl_trail := [SP]; hl_cont := [] |} in
+  match collect (str "sec-websocket-extensions"%string) [a; b] None with
+  | Some fr => strip (concat fr) = str "foo,permessage-deflate"%string
+  | None => False
+  end.
+Proof. vm_compute. reflexivity. Qed.
